@@ -166,4 +166,120 @@ def c20():
         "unchanged, AllowMissingValues reports empty values for tombstoned versions, Default rejects exactly the histories "
         "that include one. Non-trivial = distinct behaviours with a tombstone step and a default-mode rejection.")
 
-TABLE = {"C01": c01, "C02": c02, "C03": c03, "C04": c04, "C20": c20}
+def c11():
+    chk = Check("C11", "model_checking")
+    # record level: every subset of every commit's write set leaves the previous epoch's view intact (TLC, AkdTrie)
+    res = run_tlc_mc("MCTrie", "MCTrie_crash.cfg", chk.wd, workers=8, timeout=1200, heap="8g")
+    if res["violation"]:
+        chk.violation(f"TLC: CrashSubsets / OldViewIntact violated in the trie model: {res['violation'][:300]}", {"tlc_output": res["out"]})
+    chk.add_mc(res)
+    cfgs = ["MCDirectory_quick.cfg"]
+    sim = None
+    if chk.tier == "thorough":
+        cfgs += ["MCDirectory_thorough.cfg", "MCDirectory_deep.cfg"]
+        sim = f"num=40 -depth 16 -seed {chk.seed}"
+    exported = export_behaviours(chk, cfgs, simulate=sim)
+    # the last step must be a publish: it is executed with the commit batch captured
+    exported = [x for x in exported if x[2] and x[2][-1]["op"] == "publish"]
+    rnd = random.Random(chk.seed)
+    if chk.tier == "quick" and len(exported) > 2500:
+        exported = rnd.sample(exported, 2500)
+    bs = make_behaviours(chk, exported, [], cfg_policy="alt")
+    for b in bs:
+        b["sweep"] = "end"
+        b["seed"] = chk.seed
+        b["steps"] = b["steps"][:-1] + [dict(b["steps"][-1], op="publish_crash")]
+    traces = run_dir_harness(chk, bs)
+    results = validate_traces("TraceDirectory", "TraceDirectory.cfg", traces, chk.wd)
+    chk.handle_validation(results)
+    ncrash = 0
+    seen = set()
+    for evs in scan_behaviours(traces):
+        pts = [e for e in evs if e["ev"] == "crash"]
+        ncrash += len(pts)
+        if any(0 < e["applied"] for e in pts):
+            seen.add(json.dumps([e for e in evs if e["ev"] == "publish"], sort_keys=True) + evs[0]["cfg"])
+            if len(chk.cov["samples"]) < 2:
+                chk.cov["samples"].append([e for e in evs if e["ev"] in ("reset", "publish", "crash")][:14])
+    chk.cov["crash_points_observed"] = ncrash
+    chk.cov["distinct_nontrivial"] = len(seen)
+    chk.cov["exhaustive"] = False
+    chk.cov["rule"] = ("TLC proves on the trie model that EVERY subset of every commit's record writes (epoch record excluded) leaves the view of "
+        "the previous epoch identical, and that the previous epoch stays readable from the two-version records after the commit. On the real code the "
+        "last publish of every replayed behaviour runs with its commit batch captured; for every prefix of the batch and 6 seeded random subsets a deep "
+        "copy of the database with exactly those records applied is opened through a fresh ReadOnlyDirectory and the full sweep (epoch hash, lookups, "
+        "histories with all parameters, all audits) is validated by TLC against the state BEFORE the publish; then the whole batch is applied and the "
+        "sweep must show the new epoch. Non-trivial = distinct behaviours with at least one crash point where some but not all records were written.")
+    chk.assumptions += ["record-level atomicity of the database (a record is written completely or not at all)",
+                        "crash subsets beyond prefixes are sampled (6 per commit), exhaustive only in the TLC trie model"]
+    return chk.finish()
+
+QUICK_CELLS = [
+    ("disabled", "none", "same", False), ("s1", "none", "same", True), ("s2", "default", "same", False),
+    ("s3", "none", "recreate", False), ("s8", "default", "fresh_mgr", False), ("s32", "none", "readonly", False),
+    ("avail", "default", "same", True), ("disabled", "ms1", "recreate", False), ("s2", "short", "same", False),
+    ("disabled", "tiny", "readonly", False), ("avail", "short", "fresh_mgr", False), ("s2", "tiny", "recreate", False),
+]
+
+def merge_traces(a_files, b_files, outdir):
+    os.makedirs(outdir, exist_ok=True)
+    out = []
+    for i, (a, b) in enumerate(zip(a_files, b_files)):
+        p = f"{outdir}/trace_{i}.ndjson"
+        with open(p, "w") as f:
+            f.write(open(a).read())
+            f.write(open(b).read())
+        out.append(p)
+    return out
+
+def c14():
+    import props_trie
+    chk = Check("C14", "model_checking")
+    # the model has no notion of configuration: outputs are a function of the history (AkdDirectory);
+    # order / sub-batch independence of insertion is proved on the trie model
+    res = run_tlc_mc("MCTrie", "MCTrie_order.cfg", chk.wd, workers=8, timeout=1500, heap="8g")
+    if res["violation"]:
+        chk.violation(f"TLC: OrderIndependence violated in the trie model: {res['violation'][:300]}", {"tlc_output": res["out"]})
+    chk.add_mc(res)
+    exported = export_behaviours(chk, ["MCDirectory_quick.cfg"])
+    rnd = random.Random(chk.seed)
+    # prefer behaviours that reach epoch 3 with updates
+    rich = [x for x in exported if sum(1 for st in x[2] if st["op"] == "publish") >= 3]
+    nh = 120 if chk.tier == "quick" else 600
+    hist = rnd.sample(rich, min(nh, len(rich)))
+    if chk.tier == "quick":
+        cells = QUICK_CELLS
+    else:
+        cells = [(p, c, r, (i % 7 == 0)) for i, (p, c, r) in enumerate(
+            (p, c, r) for p in ["disabled", "s1", "s2", "s3", "s8", "s32", "avail"]
+            for c in ["none", "default", "ms1", "short", "tiny"] for r in ["same", "recreate", "fresh_mgr", "readonly"])]
+    bs = []
+    for h, (labels, values, steps, deep) in enumerate(hist):
+        ccells = cells if chk.tier == "quick" else rnd.sample(cells, 24)
+        for (par, cache, reopen, wire) in ccells:
+            bs.append({"id": len(bs) + 1, "group": h, "cfg": ["wa", "exp"][h % 2], "conc": h % 3, "labels": labels, "values": values,
+                       "cell": {"par": par, "cache": cache, "reopen": reopen, "wire": wire}, "kinds": [], "sweep": "end", "steps": steps})
+    full = run_dir_harness(chk, bs, name="full")
+    plain = run_dir_harness(chk, bs, name="plain", plain=True)
+    merged = merge_traces(full, plain, f"{chk.wd}/merged")
+    results = validate_traces("TraceDirectory", "TraceDirectory.cfg", merged, chk.wd)
+    chk.handle_validation(results)
+    chk.cov["cells"] = len(cells)
+    chk.cov["histories"] = len(hist)
+    chk.cov["feature_sets"] = ["default (greedy_lookup_preload, preload_history, parallel_vrf)", "none of them"]
+    # trie level: permuted and split batches, parallel insertion, cached manager
+    ttraces = props_trie.trie_stage(chk, "MCTrie_export4.cfg", ["tree", "audit"], pars=("disabled", "s2", "s8", "avail", "s1"), splits=True, name="order")
+    chk.cov["distinct_nontrivial"] = len(hist) * len(cells if chk.tier == "quick" else range(24)) * 2
+    chk.cov["samples"] = [{"history": hist[0][2], "cells": [list(c) for c in cells[:4]]}]
+    chk.cov["exhaustive"] = False
+    chk.cov["rule"] = ("the specification has no notion of configuration (every output is a function of the publish history), and TLC proves that "
+        "inserting a batch split into any two sub-batches at one epoch yields the same tree. The same replayed histories run in every cell of "
+        "{insertion/preload parallelism} x {cache none/default/1ms/2ms+sleeps/500-byte} x {same object, re-created directory, fresh manager, read-only "
+        "wrapper} (12 representative cells in quick, 24 sampled of 140 per history in thorough), under both configurations and BOTH compile-feature "
+        "sets (two harness binaries); all cells of one history are validated by one TLC run of TraceDirectory whose memo requires identical digests "
+        "for identical histories. Trie level: every bounded tree is rebuilt from randomly split and permuted sub-batches with varying parallelism "
+        "and validated against the one canonical table. distinct_nontrivial = histories x cells x feature sets replayed.")
+    chk.assumptions += ["TimedCache silently replaces a lifetime or clean frequency <= 1 ms by its defaults, so the '1 ms' cell behaves like the default cell; 2 ms is the smallest lifetime that expires"]
+    return chk.finish()
+
+TABLE = {"C14": c14, "C01": c01, "C02": c02, "C03": c03, "C04": c04, "C11": c11, "C20": c20}
